@@ -131,6 +131,17 @@ func checkC20(res *Result) {
 				res.check(isParamNamed(ci.Common().Args[0], "h"), "C20-R2", fname(fn), p.pos(ci), "headers are set on the header map passed in", "different receiver")
 			}
 		}
+		for _, hn := range []string{"Content-Type", "Date", "Digest"} {
+			if c := sets[hn]; c != nil {
+				okDom := true
+				for _, r := range returnsIn(fn) {
+					if !dominates(c, r) {
+						okDom = false
+					}
+				}
+				res.check(okDom, "C20-R2", fname(fn), p.pos(c), hn+" is set on every path (whatever the header map held before)", "the Set is conditional: a response can leave with a "+hn+" the library did not derive")
+			}
+		}
 		if c := sets["Content-Type"]; c != nil {
 			v, ok := stringConst(c.Common().Args[2])
 			res.check(ok && v == "application/ld+json; profile=\"https://www.w3.org/ns/activitystreams\"", "C20-R2", fname(fn), p.pos(c), "Content-Type is the ActivityStreams media type", "value: "+v)
@@ -163,6 +174,8 @@ func checkC20(res *Result) {
 		}
 	}
 
+	// R3 (handler): bto/bcc removed — the recursive scrub itself (shared with C03-R4)
+	checkStripper(res, p, "C20-R3", "clearSensitiveFields", true)
 	// R3: dedupeOrderedItems
 	checkInPlaceFilterLoop(res, p, "C20-R3", "dedupeOrderedItems", 1)
 	if fn := p.MustFunc(res, "C20-R3", "dedupeOrderedItems"); fn != nil {
